@@ -341,7 +341,7 @@ PROPS["C20"] = {
     "symbol_scan": {"allow": ["defaultMemoryManager"]},
     "shrink_limit": 300,  # every case starts threads: keep shrinking short
     "quick": {"cases": [1500, 1500], "workers": 8},
-    "thorough": {"cases": [40000, 40000], "ceiling_s": 3000},
+    "thorough": {"cases": [12000, 12000], "ceiling_s": 3000},
     "rule": ("workload = shared inputs from correlated generators + 2..8 threads x 3..10 ops (13 op kinds) x 3 repetitions with generated yield/spin points, char or wchar_t API; run once under ASan with the "
              "writable-segment checksum and once under TSan. Non-trivial = >= 2 threads and >= 2 ops on shared operands; distinct by workload"
              " Half of the ops on resolve / create-reference / private parse+normalise / parse+make-owner go through a thread-private recording manager, most of them with its k-th request failing once; the manager must never be handed a block that is not its own (e.g. one belonging to a shared operand) and must end empty."),
